@@ -33,10 +33,14 @@ func runC06(p *eng.Prog, r *eng.Report, tier string) {
 	c06Waiters(c)
 	c06JoinCtx(c)
 	serveWait(c, "C06.9")
+	serveLockWait(c, "C06.14")
 	waitKey(c, "C06.10")
 	handoffDrained(c, "C06.2")
 	cancelledWaiterToHandler(c, "C06.2")
 	staleNotification(c, "C06.12")
+	// C06.13 (= C15.6) the bytestream close paths: one outcome per Read, no
+	// reader left blocked however Close ends
+	c15CloseAs(c, "C06.13")
 	// C06.11 the receipt id that selects the waiter is the element's own id
 	ownAttrLookups(c, "C06.11", func(f *eng.Fn) bool { return strings.HasPrefix(f.Short, "receipts.") })
 	// C06.6 the library's own helpers release every response they obtain
